@@ -698,3 +698,26 @@ pub fn int_digest(w: &World) -> u64 {
 
 #[allow(dead_code)]
 fn _sign_used(_: Sign) {}
+
+/// coverage signature of one executed step (used by the value-level checks that drive their own loop)
+pub fn record_sig(stats: &mut Stats, w: &World, op: &Op, env: &Env, pclass: &str, la: u8, lb: u8) {
+    let mut sg = Dig::new();
+    sg.bytes(op.name.as_bytes());
+    sg.u64(op.form as u64);
+    sg.u64(la as u64);
+    sg.u64(lb as u64);
+    let mut heapish = (la >= b'a' && la != b'S') || (lb >= b'a' && lb != b'S');
+    for i in 0..env.nres {
+        let (p, s) = env.results[i];
+        let c = layout_code(w, p, s as usize);
+        sg.u64(c as u64);
+        heapish |= c >= b'a';
+    }
+    sg.bytes(pclass.as_bytes());
+    stats.sig(sg.0, heapish);
+}
+
+pub fn operand_layouts(w: &World, op: &Op) -> (u8, u8) {
+    let pp = primary_pool(&op.name);
+    (layout_code(w, pp, ix(op.a)), layout_code(w, pp, ix(op.b)))
+}
